@@ -24,7 +24,9 @@ EXPLANATION = (
     "so the section prepared from QUO_ROUND_UP(nb, PgSize) pages holds at least nq quanta. "
     "T-carve: stoAllocInner (pages for the allocator's own B-tree nodes and list heads) cuts pagesGet(npages) into npcs cells of "
     "nbytes with npcs = (k*npages)/nbytes, k <= PgSize, and a loop creating cells 1..npcs-1 after the first: floor division keeps "
-    "every cell inside the pages. Behaviour over allocation histories is not decided.")
+    "every cell inside the pages. T-btree: in btree.c a node pointer obtained from btreeSearch* is not dereferenced after a later "
+    "statement of the same block has called a routine that restructures the tree (delete, insert, split, unsplit, rotate). "
+    "Behaviour over allocation histories is not decided.")
 
 
 def array_values(var):
@@ -291,6 +293,71 @@ def check_carving(rep, config, rule="T-carve"):
                       % (why, common.render(lc), size, pages_var, size))
 
 
+BTREE_MUTATORS = {"btreeDelete0", "btreeDelete", "btreeInsert", "btreeInsert0", "btreeInsertNonFull", "btreeSplitChild",
+                  "btreeUnsplitChild", "btreeNUnsplitChild", "btreeRotateLeft", "btreeRotateRight", "btreeFreeNode"}
+
+
+def check_btree_handles(rep, config):
+    """btree.c (the mixed-size free-piece index): a node pointer found by a search is not dereferenced after a call that may
+    restructure the tree it points into."""
+    f = common.extract("btree.c", config, all_trees=True)
+    nh = 0
+    for name, fn in sorted(f.funcs.items()):
+        if "body" not in fn or not fn.get("file", "").endswith("btree.c"):
+            continue
+        par = None
+        # handles: locals assigned from btreeSearch*(...)
+        for x in common.walk(fn["body"]):
+            if x["k"] == "BinaryOperator" and x["op"] == "=":
+                l, r = common.strip(x["c"][0]), common.strip(x["c"][1])
+                if l is None or r is None or l["k"] != "DeclRefExpr" or r["k"] != "CallExpr" or not (r.get("callee") or "").startswith("btreeSearch"):
+                    continue
+                if par is None:
+                    par = common.parents(fn["body"])
+                # the statement list that contains the assignment
+                ch, p = x, par.get(x["id"])
+                while p is not None and p["k"] != "CompoundStmt":
+                    ch, p = p, par.get(p["id"])
+                if p is None:
+                    continue
+                nh += 1
+                after = False
+                mutated = None
+                bad = None
+                for st in p["c"]:
+                    if st is None:
+                        continue
+                    if st["id"] == ch["id"]:
+                        after = True
+                        continue
+                    if not after:
+                        continue
+                    for y in common.walk(st):
+                        if y["k"] == "BinaryOperator" and y["op"] == "=" and common.strip(y["c"][0]) is not None \
+                                and common.strip(y["c"][0]).get("did") == l.get("did"):
+                            mutated = None if mutated is None else mutated     # re-assigned: a fresh handle
+                            after = "reassigned"
+                        if y["k"] == "MemberExpr" and y.get("arrow") and mutated is not None and after is True:
+                            b = common.strip(y["c"][0])
+                            if b is not None and b.get("did") == l.get("did"):
+                                bad = (y["l"], mutated)
+                    if after == "reassigned":
+                        break
+                    for c in common.calls(st):
+                        if c.get("callee") in BTREE_MUTATORS and mutated is None:
+                            mutated = (c["callee"], c["l"])
+                    # dereferences later in the same statement as the mutator (after it in source order) are caught on the next statement
+                key = "stale-node:%s:%s" % (name, l["n"])
+                if bad is None:
+                    rep.ok("T-btree", "%s:%s@%d" % (config, key, x["l"]))
+                else:
+                    rep.violation("T-btree", "%s:%s" % (config, key), "btree.c:%d (%s)[%s]" % (bad[0], name, config),
+                                  "%s was found by %s at line %d, then %s (line %d) may move or merge the entries of that node, and "
+                                  "%s-> is read afterwards: the entry read belongs to another key, so the free-piece index maps a size to "
+                                  "the wrong list" % (l["n"], r["callee"], x["l"], bad[1][0], bad[1][1], l["n"]))
+    rep.floor("node handles obtained from a search in btree.c [%s]" % config, nh, 2)
+
+
 def run(tier):
     rep = common.Report("C10", tier, EXPLANATION)
     for config in ("compiler", "runtime"):
@@ -298,6 +365,7 @@ def run(tier):
         check_lookup_init(rep, config)
         check_section_sizing(rep, config)
         check_carving(rep, config)
+        check_btree_handles(rep, config)
     rep.floor("C10 table obligations", rep.obligations, 60)
     rep.assumptions.append("allocation, free, resize and collection histories are not analysed")
     return rep
